@@ -50,7 +50,7 @@ def judge(req, impl, f, prev):
 
 
 SPEC = dict(
-    prop='C08', lean_mod='Rivia.Props.C08,Rivia.Props.C08F', gen=gen, judge=judge, continue_after_known=True,
+    prop='C08', lean_mod='Rivia.Props.C08,Rivia.Props.C08F,Rivia.Props.C08S', gen=gen, judge=judge, continue_after_known=True,
     pure_ops=('entries', 'paths', 'dirs', 'files', 'all_paths', 'all_dirs', 'all_files'),
     foreign_classes=('chmod_zero', 'empty_lines_noop', 'sym_kind_specific_clauses', 'sym_malformed', 'moved_link_rel_stale'),
     rule='random trees x the cross-product of entries() options (min 0-3 x max 0-3/inf x {all,dirs,files} x follow x {unsorted,sort,dirs_first,files_first} x contents_first x descriptor cap): '
